@@ -77,6 +77,13 @@ static void run_rand(uint64_t idx, pv_rng* rng) {
     uint8_t want[19]; memcpy(want, delivered, 19); want[18] &= 0x3f;
     if (ok && memcmp(g_img + 10, want, 19)) { ok = false; pv_violation("C18/secret-differs-from-random-output", "random source delivered %s, seed holds %s", pv_hex(delivered, 19), pv_hex(g_img + 10, 19)); }
     if (ok && memcmp(delivered, script, 19)) pv_fatal("C18: world did not deliver the script");
+    /* "the seed's 150 secret bits are exactly those bytes": also where the secret is consumed, as the key-derivation password (19 bytes + zero padding) */
+    if (ok && idx % 4 == 2) {
+        uint8_t* key = malloc(32); pv_api_keygen(s, 0, 32, key); free(key);
+        if (pv_w->nkdf == 1 && pv_w->kdf[0].pwlen == 32) { uint8_t pw[32] = { 0 }; memcpy(pw, want, 19);
+            if (memcmp(pv_w->kdf[0].pw, pw, 32)) { ok = false; pv_violation("C18/secret-differs-from-random-output", "random source delivered %s, the key-derivation password is %s", pv_hex(delivered, 19), pv_hex(pv_w->kdf[0].pw, 32)); } else PV_COUNT("rand.kdf_password_equals_random_output", 1); }
+        else { ok = false; pv_violation("C18/secret-differs-from-random-output", "keygen of the new seed: %d KDF calls", pv_w->nkdf); }
+    }
     uint64_t B = pv_api_get_birthday(s);
     { bool from_clock = false; for (int i = 0; i < nreads && i < 8; ++i) if (B == pv_m_birthday_time(pv_m_birthday_of(seen[i]))) from_clock = true;
       if (nreads >= 1 && !from_clock) { ok = false; pv_violation("C18/birthday-not-from-injected-clock", "the clock was read %d time(s) and said %llu%s; birthday %llu belongs to none of the readings", nreads, (unsigned long long)seen[0], nreads > 1 ? ", then other values" : "", (unsigned long long)B); } }
